@@ -451,12 +451,14 @@ class Ctx(object):
 
 
 def load_findings(pid):
-    p = os.path.join(VERIF, 'known_findings.json')
+    """findings/<pid>.json is the per-property source; known_findings.json is their concatenation
+    (bin/mkmanifest).  Never written at run time."""
+    p = os.path.join(VERIF, 'findings', pid + '.json')
     if not os.path.exists(p):
         return []
     with open(p) as f:
         allf = json.load(f)
-    return [k for k in allf.get('findings', []) if k.get('property') == pid]
+    return [k for k in allf if k.get('property') == pid]
 
 
 def match_known(known, f):
